@@ -96,6 +96,10 @@ func (h *inFlightRequestsHandler) onOutgoingFrameEnqueued(f *frame.Frame) (InFli
 			return inFlight, nil
 		}
 	}
+	if managedStreamId {
+		// the request was not accepted: hand the borrowed stream id back, or it would be lost to the pool
+		_ = h.releaseStreamId(streamId)
+	}
 	return nil, err
 }
 
